@@ -1,7 +1,7 @@
 (* C19 - Server shutdown is graceful: in-flight requests complete.
    Only theorem statements, each closed by an exact lemma, and Print Assumptions. *)
 Require Import Verif.Common.Base.
-Require Import Verif.Model.C19 Verif.Spec.C19 Verif.Proof.C19_a Verif.Proof.C19.
+Require Import Verif.Model.C19 Verif.Spec.C19 Verif.Proof.C19_a Verif.Proof.C19 Verif.Proof.C19_b Verif.Proof.C19_c.
 
 (* the trace monitor run on the observed traces decides exactly the property *)
 Theorem C19_monitor_correct : forall t, graceful_b t = true <-> graceful t.
@@ -53,6 +53,20 @@ Theorem C19_included_traces_graceful : forall t, accepts_b t = true -> graceful 
 Proof. exact accepts_graceful. Qed.
 Print Assumptions C19_included_traces_graceful.
 
+(* the inclusion check is complete on the traces the model generates: the observable part of every
+   complete run is accepted (so a correspondence failure always means that the observed trace is NOT
+   a trace of the model, never that the check failed to find the internal events) *)
+Theorem C19_inclusion_complete : forall ls s, run init ls = Some s -> final s ->
+  accepts_b (filter observable ls) = true.
+Proof. exact accepts_complete. Qed.
+Print Assumptions C19_inclusion_complete.
+
+(* hence: accepts_b decides exactly "t is the observable part of a complete run of the model" *)
+Theorem C19_inclusion_exact : forall t,
+  accepts_b t = true <-> exists ls s, run init ls = Some s /\ final s /\ filter observable ls = t.
+Proof. exact accepts_exact. Qed.
+Print Assumptions C19_inclusion_exact.
+
 (* for every number n of requests there is a complete run of the model with all n of them in
    flight at the cancellation (the quantifier of C19 is not vacuous at any n) *)
 Theorem C19_every_inflight_count_reachable : forall n,
@@ -61,14 +75,9 @@ Theorem C19_every_inflight_count_reachable : forall n,
 Proof. exact inflight_run_ok. Qed.
 Print Assumptions C19_every_inflight_count_reachable.
 
-(* Liveness, full statement (not proved here):
-     forall ls s, run init ls = Some s -> canc s = true ->
-       exists ls' s', run s ls' = Some s' /\ runner s' = RReturned /\
-                      Forall (fun e => match e with Accept _ | HandlerDone _ | ShutdownCall
-                                                   | ShutdownReturn _ | RunnerReturn _ => True | _ => False end) ls'
-   (once cancelled, if the handlers finish, the runner returns).  Proved: the one-step part - after the
-   cancellation, until the runner has returned, a step of the runner or of a pending handler
-   is always enabled (the runner is never stuck, in any state). *)
+(* Liveness.  The one-step part first (kept under its original name; the full statement is
+   C19_shutdown_terminates below): after the cancellation, until the runner has returned, a step
+   of the runner or of a pending handler is always enabled (the runner is never stuck, in any state). *)
 Theorem C19_shutdown_progress_partial : forall s,
   canc s = true -> runner s <> RReturned ->
   (runner s = RSelect /\ step s ShutdownCall <> None) \/
@@ -78,6 +87,57 @@ Theorem C19_shutdown_progress_partial : forall s,
   (exists e, runner s = RShutRet e /\ step s (RunnerReturn (if e then VOther else VNil)) <> None).
 Proof. exact shutdown_progress. Qed.
 Print Assumptions C19_shutdown_progress_partial.
+
+(* ---- termination of the shutdown (measure argument, no fairness needed) ----
+   measure s = 2 per connection whose request has not started + 1 per running handler + the phase of
+   the runner (3 in the select, 2 inside Shutdown, 1 when Shutdown has returned, 0 returned).
+   progress_step = the steps of the runner, of the pending handlers and of the connections not yet
+   served: Accept, HandlerDone, Drop, ShutdownCall, ShutdownReturn, RunnerReturn. *)
+
+(* every such step strictly decreases the measure (in any state) *)
+Theorem C19_measure_decreases : forall s e s',
+  step s e = Some s' -> progress_step e = true -> measure s' < measure s.
+Proof. exact measure_decreases. Qed.
+Print Assumptions C19_measure_decreases.
+
+(* every other step leaves it unchanged, except a newly dialled connection (+2); after Shutdown
+   was called no connection can be dialled at all (Conn needs the listener open) *)
+Theorem C19_measure_neutral : forall s e s',
+  step s e = Some s' -> progress_step e = false -> is_conn e = false -> measure s' = measure s.
+Proof. exact measure_neutral. Qed.
+Print Assumptions C19_measure_neutral.
+
+(* hence in every schedule from a cancelled state in which no new connection is dialled at most
+   measure-many steps of the runner and of the pending handlers happen, whatever else is interleaved *)
+Theorem C19_bounded_progress : forall ls s s',
+  run s ls = Some s' -> canc s = true -> forallb (fun e => negb (is_conn e)) ls = true ->
+  count_progress ls + measure s' <= measure s.
+Proof. exact bounded_progress. Qed.
+Print Assumptions C19_bounded_progress.
+
+(* a cancelled state in which no step of the runner or of a pending handler is enabled has the runner
+   returned: every maximal such schedule ends with the return (environment assumption, made explicit
+   by "maximal": a handler that can finish eventually does) *)
+Theorem C19_stuck_means_returned : forall s, canc s = true ->
+  (forall e, progress_step e = true -> step s e = None) -> runner s = RReturned.
+Proof. exact stuck_means_returned. Qed.
+Print Assumptions C19_stuck_means_returned.
+
+(* the full liveness statement: once cancelled, if the handlers finish, the runner returns - within
+   measure-many steps, all of them steps of the runner or of pending handlers *)
+Theorem C19_shutdown_terminates : forall s, canc s = true ->
+  exists ls s', run s ls = Some s' /\ runner s' = RReturned /\
+                Forall (fun e => progress_step e = true) ls /\ List.length ls <= measure s.
+Proof. exact shutdown_terminates. Qed.
+Print Assumptions C19_shutdown_terminates.
+
+(* once Shutdown has returned the return of the runner is enabled and stays enabled until taken *)
+Theorem C19_return_stays_enabled : forall s x, runner s = RShutRet x ->
+  step s (RunnerReturn (if x then VOther else VNil)) <> None /\
+  forall e s', step s e = Some s' ->
+    (e = RunnerReturn (if x then VOther else VNil) /\ runner s' = RReturned) \/ runner s' = RShutRet x.
+Proof. exact return_stays_enabled. Qed.
+Print Assumptions C19_return_stays_enabled.
 
 (* ---- non-vacuity ---- *)
 (* a complete run with three requests in flight at the cancellation, one finished before, one
